@@ -294,9 +294,60 @@ func c20EnvironRaw(c *core.Ctx, cs c20Case) {
 	c.Distinct("environ-raw", fmt.Sprint(len(out.Vars)))
 }
 
+// c20ArgsOwned: NewExecEnv is handed a slice with spare capacity (a sub-slice of
+// a longer one, as callers that split a command line have).  It may not write
+// into it, and a second environment made from the same slice may not change
+// what the first one reports.
+func c20ArgsOwned(c *core.Ctx, cs c20Case) {
+	line := append([]string(nil), cs.Environ...)
+	k := len(line) / 2
+	args := line[:k]
+	env := interp.NewExecEnv("sh", args...)
+	c.Eval(1)
+	key := fmt.Sprintf("NewExecEnv(\"sh\", line[:%d]...) with line = %q", k, cs.Environ)
+	if fmt.Sprint(line) != fmt.Sprint(cs.Environ) {
+		c.Violation("args", key, fmt.Sprintf("the caller's slice is left as it was: %q", cs.Environ), fmt.Sprintf("%q", line), "")
+		return
+	}
+	snap := func(e *interp.ExecEnv) string {
+		var b strings.Builder
+		for i := 0; i <= k+1; i++ {
+			v, set := e.Get(strconv.Itoa(i))
+			fmt.Fprintf(&b, "$%d=%q/%v ", i, v.Value, set)
+		}
+		v, _ := e.Get("#")
+		return b.String() + "$#=" + v.Value
+	}
+	want := snap(env)
+	exp := "$0=\"sh\"/true "
+	for i := 1; i <= k; i++ {
+		exp += fmt.Sprintf("$%d=%q/true ", i, cs.Environ[i-1])
+	}
+	exp += fmt.Sprintf("$%d=\"\"/false $#=%d", k+1, k)
+	if want != exp {
+		c.Violation("args", key, exp, want, "")
+		return
+	}
+	env2 := interp.NewExecEnv("sub", args...)
+	env2.Set("x", "1")
+	if got := snap(env); got != want {
+		c.Violation("args", key+", then a second NewExecEnv(\"sub\", line[:k]...)", want, got, "the first environment's parameters changed")
+		return
+	}
+	if fmt.Sprint(line) != fmt.Sprint(cs.Environ) {
+		c.Violation("args", key+", then a second NewExecEnv", fmt.Sprintf("the caller's slice is left as it was: %q", cs.Environ), fmt.Sprintf("%q", line), "")
+		return
+	}
+	c.Distinct("args-owned", fmt.Sprint(k))
+}
+
 func c20Exec(c *core.Ctx, cs c20Case) {
 	if cs.Kind == "environ-raw" {
 		c20EnvironRaw(c, cs)
+		return
+	}
+	if cs.Kind == "args-owned" {
+		c20ArgsOwned(c, cs)
 		return
 	}
 	for _, kv := range cs.Environ {
@@ -558,6 +609,10 @@ func c20Gen(c *core.Ctx) {
 		for k := 0; k < len(alpha); k++ {
 			core.Do(c, c20Case{Environ: e, Ops: []c20Op{alpha[k], alpha[(k+i+1)%len(alpha)]}, Kind: "environ"}, c20Exec)
 		}
+	}
+	// argument slices with spare capacity
+	for _, l := range [][]string{{"a", "b", "c", "--", "rest", "of"}, {"x", "y"}, {"", "", "", ""}, {"1", "2", "3", "4", "5", "6", "7", "8", "9", "10", "11", "12"}, {"only", "spare"}} {
+		core.Do(c, c20Case{Environ: l, Kind: "args-owned"}, c20Exec)
 	}
 	// environment blocks only a parent process can hand over (a child process is the probe)
 	for _, e := range [][]string{{"=x"}, {"=x", "A=1"}, {"novalue", "A=1"}, {"=x=y", "B=2"}, {"=", "C=3"}, {"A=1", "A=2", "D=4"}, {"==", "E=a=b"}, {"1=one", "=x", "@=y", "F=f"}, {"名=v", "=名"}, {"IFS=,", "G=g"}, {}} {
